@@ -96,7 +96,8 @@ BANNERS_CLEAN = ['Welcome to host h\r\n', 'Last login: Mon Oct  5 10:00:00 2026 
                  'Warning: your password will expire in 7 days\r\n', 'Your passphrase was changed last week\r\n',
                  'permissions of ~/.ssh are fine, terminal ready, connection established\r\n']
 BANNERS_TRICKY = ['You have 3 new messages > inbox\r\n', 'Balance: 100$ \r\n', '### NOTICE ###\r\n', 'cost: $5 # approx\r\n']
-PROMPTS = ['user@h:~$ ', '# ', 'h> $ ', '[user@h ~]$ ']
+PROMPTS = ['user@h:~$ ', '# ', 'h> $ ', '[user@h ~]$ ',
+           'h[#6]$ ', 'h[#6]$ ', 'h[#96]$ ', 'h[#7]$ ']       # a command counter in the prompt: it grows a digit while login() synchronises
 
 
 @st.composite
